@@ -676,7 +676,9 @@ EXTRA_TEXT = ["<a href='x'>&amp;</a>]]>", "  lead/trail \t "]
 
 
 def xml_legal(s: str) -> bool:
-    return not any(ord(ch) in _XML_ILLEGAL for ch in s)
+    # a literal CR is a legal XML character but XML 1.0 (2.11) normalises CR / CRLF to LF on parsing, so it cannot round-trip
+    # through an XML form that does not escape it (out of domain for the XML route, like xml:string-CR in the tree family)
+    return "\r" not in s and not any(ord(ch) in _XML_ILLEGAL for ch in s)
 
 
 def make_gen(seed: int) -> msggen.Gen:
